@@ -56,8 +56,22 @@ def hx(b: bytes) -> str:
     return b.hex() if b else "-"
 
 
+ADDR_CLASS_FAMILY = {"UDPv4Address": "v4", "UDPv6Address": "v6", "DomainAddress": "domain"}
+
+
 def addr_token(a, v4_only=False) -> str:
     host, port = a[0], a[1]
+    fam = ADDR_CLASS_FAMILY.get(type(a).__name__)
+    if fam is not None and not v4_only:
+        # a DECODED address: the family is the one its class states (a v6 address delivered as UDPv4Address is another value)
+        try:
+            if fam == "v4":
+                return f"a4:{hx(socket.inet_pton(socket.AF_INET, host))}:{port}"
+            if fam == "v6":
+                return f"a6:{hx(socket.inet_pton(socket.AF_INET6, host))}:{port}"
+            return f"ad:{hx(host.encode())}:{port}"
+        except OSError:
+            return f"a?{fam}:{host}:{port}"
     if v4_only:
         return f"a4:{hx(socket.inet_aton(host))}:{port}"
     try:
@@ -77,6 +91,8 @@ def atom_token(kind: str, w: int, v) -> str:
     if kind == "sint":
         return f"i{int(v)}"
     if kind == "bool":
+        if not isinstance(v, bool):
+            return f"n{int(v)}" if isinstance(v, int) else "x" + hx(bytes(v))
         return "b1" if v else "b0"
     if kind in ("char", "fixed"):
         return "x" + hx(bytes(v))
@@ -108,7 +124,7 @@ def token(d: dict, v) -> str:
     if k == "array":
         e = d["elem"]
         if e == "bool":
-            return "A(" + ",".join("b1" if x else "b0" for x in v) + ")"
+            return "A(" + ",".join(("b1" if x else "b0") if isinstance(x, bool) else f"n{int(x)}" for x in v) + ")"
         if e == "q":
             return "A(" + ",".join(f"i{int(x)}" for x in v) + ")"
         return "A(" + ",".join("f" + hx(struct.pack(">d", x)) for x in v) + ")"
@@ -399,7 +415,11 @@ def same(a, b) -> bool:
     if isinstance(a, (bytes, str, int, bool, type(None))) and isinstance(b, (bytes, str, int, bool, type(None))):
         if isinstance(a, (bytes, str)) != isinstance(b, (bytes, str)) or isinstance(a, bytes) != isinstance(b, bytes):
             return False
+        if isinstance(a, bool) != isinstance(b, bool):
+            return False        # a `?` / arrayH-? value is a bool, not the integer 1 (bit flags are normalised by `norm`)
         return a == b
+    if isinstance(a, (set, frozenset)) and isinstance(b, (set, frozenset)):
+        return type(a) is type(b) and len(a) == len(b) and all(any(same(x, y) for y in b) for x in a)
     return type(a) is type(b) and a == b
 
 
@@ -445,6 +465,18 @@ class Run:
         """one PRNG per case, derived from the run seed: a replay regenerates exactly the case it names"""
         return random.Random(f"{self.ctx.seed}:{self.ctx.tier}:{section}:{'s' if self.ctx.searching else 'r'}:{idx}")
 
+    LIMITED = ("DataClassPayload:decode-before-first-instance", "DataClassPayload:tuple-set-field-decodes-as-list")
+
+    def fail_limited(self, signature, what, rep):
+        """oracle failure; signatures that are recorded known findings are reported a few times per run and counted
+        afterwards, so that they cannot crowd new failures out of the runner's bounded failure list"""
+        if signature in self.LIMITED:
+            k = "known_signature_occurrences:" + signature
+            self.ctx.count(k)
+            if self.ctx.counts[k] > 3:
+                return
+        self.ctx.oracle_fail(signature, what, rep)
+
     def want(self, section, i) -> bool:
         return self.only is None or self.only == (section, i)
 
@@ -460,6 +492,9 @@ class Run:
             if mod.startswith("err"):
                 self.ctx.count("model_error:" + mod[4:])
                 mod = "err"
+            if mod != impl and rep.get("tolerate_impl_err") and impl == "err":
+                self.ctx.count("malformed:node-key-rejected")
+                continue
             if mod != impl:
                 self.ctx.disagree(f"model {mod[:160]!r} != implementation {impl[:160]!r} on `{ln[:200]}`",
                                   {**rep, "line": ln[:4000], "model": mod[:2000], "impl": impl[:2000]})
@@ -470,7 +505,8 @@ class Run:
 
     def embed(self, rng, packed: bytes, ends_in_raw: bool):
         mode = rng.choice(["zero", "pre", "pre", "both", "both", "both"])
-        pre = b"" if mode == "zero" else rbytes(rng, rng.choice([1, 2, 3, 7, 22, 23, 31, rng.randrange(1, 80)]))
+        pre = b"" if mode == "zero" else rbytes(rng, rng.choice([1, 2, 3, 7, 22, 23, 31, rng.randrange(1, 80), rng.randrange(1, 80),
+                                                                 rng.choice([255, 256, 1400, 1500])]))
         if self.force_pre is not None:
             pre, mode = rbytes(rng, self.force_pre), "both"
         post = b"" if (mode in ("zero", "pre") or ends_in_raw) else rbytes(rng, rng.randrange(1, 12))
@@ -559,6 +595,20 @@ class Run:
         self.model(f"unpack @{name} {hx(data)} {off}", f"ok {gtok} {new}", rep)
         if not same(self.norm(d, v), self.norm(d, got)):
             ctx.oracle_fail(f"{site}:value", f"{name}: {short_repr(v)} decodes as {short_repr(got)}", rep)
+        for msg in self.addr_class_errors(d, got)[:1]:
+            ctx.oracle_fail(f"{site}:address-class", f"{name}: {msg}", rep)
+        # the public Serializer.pack / Serializer.unpack dispatch must agree with the packer (single-argument formats)
+        if d["kind"] != "bits" and not (d["kind"] == "struct" and len(d["fields"]) > 1):
+            try:
+                if self.ser.pack(name, v) != packed:
+                    ctx.oracle_fail("Serializer.pack:dispatch", f"Serializer.pack({name!r}, …) differs from the packer's bytes", rep)
+                g2, n2 = self.ser.unpack(name, data, off)
+                if not same(self.norm(d, g2), self.norm(d, got)) or n2 != new:
+                    ctx.oracle_fail("Serializer.unpack:dispatch", f"Serializer.unpack({name!r}, data, {off}) = "
+                                    f"({short_repr(g2, 80)}, {n2}) but the packer gives ({short_repr(got, 80)}, {new})", rep)
+                ctx.count("serializer_api:name")
+            except Exception as e:
+                ctx.oracle_fail("Serializer.unpack:dispatch", f"Serializer.pack/unpack({name!r}) raises {type(e).__name__}: {e}", rep)
         if new != off + len(packed):
             ctx.oracle_fail(f"{site}:offset", f"{name}: decoding at offset {off} consumed up to {new}, produced bytes end at "
                             f"{off + len(packed)}", rep)
@@ -570,6 +620,41 @@ class Run:
             ctx.oracle_fail(f"{site}:reencode", f"{name}: re-encoding the decoded value raises {type(e).__name__}", rep)
         ctx.case((S_PACKERS, name, tok, off), off > 0 or not is_trivial(d, v))
         ctx.sample({"packer": name, "value": short_repr(v, 80), "offset": off, "bytes": packed.hex()[:60]})
+
+    def addr_class_errors(self, d, v) -> list[str]:
+        """decoded addresses must be of the endpoint address class of their family (spec: address_classes)"""
+        want = self.spec.get("address_classes")
+        if not want:
+            return []
+        k = d["kind"]
+        out = []
+        try:
+            if k in ("ipv4", "address"):
+                if k == "ipv4":
+                    fam = "v4"
+                else:
+                    try:
+                        socket.inet_pton(socket.AF_INET, v[0])
+                        fam = "v4"
+                    except OSError:
+                        try:
+                            socket.inet_pton(socket.AF_INET6, v[0])
+                            fam = "v6"
+                        except OSError:
+                            fam = "domain"
+                if type(v).__name__ != want[fam]:
+                    out.append(f"address {tuple(v)!r} of family {fam} is delivered as {type(v).__name__}, expected {want[fam]}")
+            elif k == "listOf":
+                for x in v:
+                    out += self.addr_class_errors(d["elem"], x)
+            elif k == "nested":
+                for f, x in zip(d["fields"], v):
+                    out += self.addr_class_errors(f, x)
+            elif k == "node":
+                out += self.addr_class_errors({"kind": "address", "ip_only": True}, v.address)
+        except Exception:
+            pass
+        return out
 
     def norm(self, d, v):
         """normal form for field comparison: decoded bits are 0/1, decoded addresses are tuple subclasses"""
@@ -685,6 +770,47 @@ class Run:
             ctx.count("illegal:" + impl[:3])
             self.model(f"pack @{name} {token(d, v)}", impl, rep)
             ctx.case(("illegal", name, i), True)
+
+    # --- section: pack inputs the packers accept beyond the round-trip domain (truthiness, surplus arguments) -------------------
+    def loose(self):
+        ctx = self.ctx
+
+        def atok(v):
+            if isinstance(v, bool):
+                return "b1" if v else "b0"
+            if isinstance(v, int):
+                return f"n{v}" if v >= 0 else f"i{v}"
+            return "x" + hx(bytes(v))
+        cases = []
+        if self.info["registry"].get("bits", {}).get("kind") == "bits":
+            for args in [(2, 0, 0, 0, 0, 0, 0, -1), (b"x", b"", 0, 1, True, False, 7, 0), (1, 0, 1, 0, 1, 0, 1, 0, 1),
+                         (0, 0, 0, 0, 0, 0, 0, 0, 1, 1), (1, 1, 1, 1, 1, 1, 1)]:
+                cases.append(("bits", args, "T(" + ",".join(atok(a) for a in args) + ")"))
+        if self.info["registry"].get("?", {}).get("kind") == "struct":
+            for v in [0, 1, 5, -1, b"", b"\x00"]:
+                cases.append(("?", (v,), atok(v)))
+        for i, (name, args, tok) in enumerate(cases):
+            rep = {"section": "loose", "index": i, "packer": name, "args": short_repr(args)}
+            try:
+                b = self.ser.get_packer_for(name).pack(*args)
+                impl = "ok " + hx(b)
+            except Exception:
+                b, impl = None, "err"
+            ctx.count("loose:" + name + ":" + impl[:3])
+            self.model(f"pack @{name} {tok}", impl, rep)
+            if b is not None:
+                want = [1 if a else 0 for a in args[:8]]
+                lst: list = []
+                try:
+                    self.ser.get_packer_for(name).unpack(b, 0, lst)
+                    got = [int(x) for x in lst]
+                    if got != (want if name == "bits" else want[:1]):
+                        ctx.oracle_fail(f"{type(self.ser.get_packer_for(name)).__name__}[{name}]:truthiness",
+                                        f"{name}: arguments {args!r} (truth values {want}) decode as {lst}", rep)
+                except Exception as e:
+                    ctx.oracle_fail(f"{type(self.ser.get_packer_for(name)).__name__}[{name}]:unpack-raises",
+                                    f"{name}: decoding the encoding of {args!r} raises {type(e).__name__}", rep)
+            ctx.case(("loose", name, tok), True)
 
     # --- section: all 256 bit combinations ---------------------------------------------------------------------------------
     def bits_exhaustive(self):
@@ -885,6 +1011,9 @@ class Run:
                     continue
                 rng = self.rng_for(S_CLASSES, idx)
                 obj, names = self.gen_instance(rng, p)
+                if obj is None:
+                    self.ctx.count("old_style_class_without_generator:" + p["name"].rpartition(".")[2])
+                    continue
                 mode = rng.choice(["plain", "plain", "nested", "listed"])
                 self.one_class(rng, p, obj, names, mode, idx)
 
@@ -962,6 +1091,18 @@ class Run:
                 self.model(f"unpackl {fmt_token(wl)} {hx(data)} {off}", "err", rep)
                 return
             end = off + len(wp)
+            try:    # public API: Serializer.unpack(cls | [cls], data, offset) on the nested field alone
+                g2, n2 = self.ser.unpack(cls if mode == "nested" else [cls], data, off + 2)
+                ref = gw.inner
+                ok = (same(public_attrs(g2), public_attrs(ref)) if mode == "nested" else
+                      len(g2) == len(ref) and all(same(public_attrs(x), public_attrs(y)) for x, y in zip(g2, ref)))
+                if not ok or n2 != new - 1:
+                    ctx.oracle_fail("Serializer.unpack:dispatch", f"Serializer.unpack({'cls' if mode == 'nested' else '[cls]'}, …) of a "
+                                    f"{mode} {cn} gives another result / offset {n2} than unpack_serializable ({new - 1})", rep)
+                ctx.count("serializer_api:" + ("class" if mode == "nested" else "class-list"))
+            except Exception as e:
+                ctx.oracle_fail("Serializer.unpack:dispatch", f"Serializer.unpack({'cls' if mode == 'nested' else '[cls]'}, …) of a "
+                                f"{mode} {cn} raises {type(e).__name__}: {e}", rep)
             if gw.a != 0xBEEF or gw.z != 7:
                 ctx.oracle_fail(f"{cn}:nested-neighbours", f"fields around a nested {cn} decode as {gw.a}, {gw.z}", rep)
             inner = gw.inner if mode == "nested" else gw.inner
@@ -993,7 +1134,7 @@ class Run:
             except Exception as e:
                 gtok = f"untokenizable:{type(e).__name__}"
             self.model(f"decode {p['name']} {hx(data)} {off}", f"ok {gtok} {new}", rep)
-        ctx.case((S_CLASSES, p["name"], atok, off, mode), True)
+        ctx.case((S_CLASSES, p["name"], atok, off, mode), off > 0 or any(packed))
         if idx % 37 == 0:
             ctx.sample({"class": cn, "mode": mode, "offset": off, "bytes": packed.hex()[:60]})
 
@@ -1018,13 +1159,18 @@ class Run:
 
     def compare_fields(self, cn, p, obj, got, names, rep, mode):
         if type(got) is not type(obj):
-            if not isinstance(obj, type(got)):
-                self.ctx.oracle_fail(f"{cn}:type", f"decoded object is a {type(got).__name__}", rep)
+            allowed = self.spec.get("decodes_as", {}).get(p["name"])
+            gq = f"{type(got).__module__}.{type(got).__qualname__}"
+            if gq != allowed:
+                self.ctx.oracle_fail(f"{cn}:type", f"decoded object is a {type(got).__name__}, expected {cn}", rep)
                 return
-            # e.g. PongPayload inherits PingPayload.from_unpack_list: same fields, decoded as the base class
+            # PongPayload inherits PingPayload.from_unpack_list: same fields and bytes, decoded as the base class (frozen pair)
             self.ctx.count("decoded_as_base_class:" + cn)
         for f in self.field_names(p, obj, names):
             a, b = getattr(obj, f), getattr(got, f, "<missing>")
+            if isinstance(b, tuple) and len(b) == 2 and isinstance(b[0], str) and isinstance(b[1], int):
+                for msg in self.addr_class_errors({"kind": "address", "ip_only": False}, b)[:1]:
+                    self.ctx.oracle_fail(f"{cn}.from_unpack_list:address-class-{f}", f"{cn}.{f}: {msg}", rep)
             if not same_field(a, b):
                 self.ctx.oracle_fail(f"{cn}.from_unpack_list:field-{f}",
                                      f"{cn}.{f} = {short_repr(a, 100)} decodes as {short_repr(b, 100)} ({mode})", rep)
@@ -1083,7 +1229,12 @@ class Run:
                 args += list(v)
             else:
                 args.append(v)
-        return layout["cls_obj"](*args)
+        cls = layout["cls_obj"]
+        k = getattr(self, "_kw_split", None)
+        if k is None or len(cls.names) != len(args):
+            return cls(*args)
+        k = min(k, len(args))
+        return cls(*args[:k], **dict(zip(cls.names[k:], args[k:])))
 
     def extract(self, layout, obj):
         vals, names = [], iter(layout["cls_obj"].names)
@@ -1124,7 +1275,17 @@ class Run:
             rep = {"section": S_ADHOC, "index": idx, "format": ftok, "values": short_repr(vals, 400), "compiled": compiled}
             ctx.count("adhoc_depth:%d" % depth_of(layout))
             ctx.count("adhoc_fields:%d" % len(layout["fields"]))
-            obj = self.instantiate(layout, vals)
+            how = rng.choice(["positional", "positional", "keyword", "mixed"])
+            self._kw_split = None if how == "positional" else 0 if how == "keyword" else rng.randrange(0, 12)
+            ctx.count(f"adhoc_construction:{'compiled' if compiled else 'interpreted'}:{how}")
+            try:
+                obj = self.instantiate(layout, vals)
+            except Exception as e:
+                ctx.oracle_fail("adhoc:construct-raises", f"constructing {ftok} ({how}, {'compiled' if compiled else 'interpreted'}) "
+                                f"raises {type(e).__name__}: {e}", rep)
+                continue
+            finally:
+                self._kw_split = None
             try:
                 packed = self.ser.pack_serializable(obj)
             except Exception as e:
@@ -1168,7 +1329,7 @@ class Run:
             except Exception as e:
                 gtok = f"untokenizable:{type(e).__name__}"
             self.model(f"unpackl {ftok} {hx(data)} {off}", f"ok {gtok} {new}", rep)
-            ctx.case((S_ADHOC, ftok, vtok, off), True)
+            ctx.case((S_ADHOC, ftok, vtok, off), off > 0 or any(packed))
 
     # --- section: dataclass-defined payloads, inheritance chains and instantiation histories ---------------------------------
     DC_FMT_NAMES = ["H", "I", "Q", "B", "l", "q", "f", "d", "?", "c", "20s", "32s", "varlenH", "varlenI", "varlenBx2",
@@ -1180,15 +1341,14 @@ class Run:
         tm = self.spec["dataclass_type_map"]
         r = rng.random()
         py = {"bool": bool, "int": int, "float": float, "bytes": bytes, "str": str,
-              "list[bool]": list[bool], "list[int]": list[int], "list[float]": list[float]}
-        if r < 0.55:
-            key = rng.choice(sorted(tm))
+              "list[bool]": list[bool], "list[int]": list[int], "list[float]": list[float],
+              "tuple[int]": tuple[int], "set[int]": set[int], "tuple[bool]": tuple[bool], "tuple[float]": tuple[float]}
+        if r < 0.55 or not leafs and r >= 0.75:
+            key = rng.choice(sorted(k for k in tm if k in py))
             return (f"f{i}", py[key], self.doc[tm[key]], "atom:" + key)
         if r < 0.75:
             name = rng.choice([n for n in self.DC_FMT_NAMES if n in self.doc and n in self.info["registry"]])
             return (f"f{i}", type_from_format(name), self.doc[name], "fmt:" + name)
-        if not leafs:
-            return (f"f{i}", int, self.doc[tm["int"]], "atom:int")
         leaf = rng.choice(leafs)
         if r < 0.88:
             return (f"f{i}", leaf["cls"], leaf["layout"], "nested")
@@ -1199,8 +1359,8 @@ class Run:
         ns = {} if msg_id is None else {"msg_id": msg_id}
         return dataclasses.make_dataclass(name, [(f[0], f[1]) for f in fields], bases=(base,), namespace=ns, module=__name__)
 
-    def dc_value(self, rng, f):
-        """-> (constructor argument, value in layout shape)"""
+    def dc_value(self, rng, f, build=True):
+        """-> (constructor argument, value in layout shape, expected field value after decoding)"""
         kind = f[3]
         if kind == "nested" or kind == "nestedlist":
             leaf = f[4]
@@ -1208,12 +1368,17 @@ class Run:
             subs = []
             for _ in range(n):
                 vals = [gen_value(rng, lf[2], self.ctx, 1) for lf in leaf["fields"]]
-                subs.append((leaf["cls"](*vals), vals))
+                subs.append((leaf["cls"](*vals) if build else None, vals))
             if kind == "nested":
-                return subs[0]
-            return [o for o, _ in subs], [v for _, v in subs]
+                return subs[0][0], subs[0][1], subs[0][1]
+            return [o for o, _ in subs], [v for _, v in subs], [v for _, v in subs]
         v = gen_value(rng, f[2], self.ctx, 1)
-        return v, v
+        if kind.startswith("atom:tuple"):
+            return tuple(v), list(v), tuple(v)
+        if kind.startswith("atom:set"):
+            sv = set(v)
+            return sv, list(sv), sv
+        return v, v, v
 
     def dc_extract(self, fields, obj):
         out = []
@@ -1227,26 +1392,41 @@ class Run:
                 out.append(v)
         return out
 
+    @staticmethod
+    def listify(v):
+        if isinstance(v, (tuple, set, frozenset)) and not (len(v) == 2 and isinstance(v, tuple) and type(v) is not tuple):
+            return [Run.listify(x) for x in v]
+        if isinstance(v, list):
+            return [Run.listify(x) for x in v]
+        return v
+
+    KNOWN_RECV_FIRST = "DataClassPayload:decode-before-first-instance"
+
     def dataclass_histories(self, n: int):
-        """random hierarchies of dataclass payloads (base, derived, derived-of-derived / sibling) used in random orders:
-        whatever was instantiated before, every class must encode ALL its (inherited + own) fields in the documented formats
-        and decode to an instance of itself"""
+        """random hierarchies of dataclass payloads (base, derived, derived-of-derived / sibling) under random HISTORIES of
+        two kinds of steps: `use` (instantiate, encode, decode) and `recv` (decode bytes produced by a conforming peer
+        WITHOUT instantiating the class in this step).  Whatever happened before, every class must encode ALL its
+        (inherited + own) fields in the documented formats and decode to an instance of itself with all fields.  After
+        every step the `names` of every class and the outcome of the decode are compared with the `Dc` model."""
         from ipv8.messaging.payload_dataclass import DataClassPayload
         ctx = self.ctx
         for idx in range(1, n + 1):
             if not self.want("dataclass", idx):
                 continue
             rng = self.rng_for("dataclass", idx)
-            # leaf payloads usable as nested members
+            # leaf payloads usable as nested members; each is instantiated once so that it is itself converted
             leafs = []
             for j in range(2):
                 lf = [self.dc_field(rng, [], 0) for _ in range(rng.choice([1, 2]))]
-                lf = [(f"l{k}", f[1], f[2], f[3]) for k, f in enumerate(lf) if not f[3].startswith("nested")] or \
-                     [("l0", int, self.doc["q"], "atom:int")]
+                lf = [(f"l{k}", f[1], f[2], f[3]) for k, f in enumerate(lf) if f[3].split(":")[0] in ("atom", "fmt")
+                      and "tuple" not in f[3] and "set" not in f[3]] or [("l0", int, self.doc["q"], "atom:int")]
                 cls = self.dc_make(f"Leaf{idx}_{j}", lf, DataClassPayload, None)
-                leafs.append({"cls": cls, "fields": lf,
-                              "layout": {"kind": "nested", "fields": [f[2] for f in lf]}})
-            # the hierarchy: each class = (name, all fields incl. inherited, class object, role)
+                leafs.append({"cls": cls, "fields": lf, "layout": {"kind": "nested", "fields": [f[2] for f in lf]}})
+                try:
+                    cls(*[gen_value(rng, f[2], None, 1) for f in lf])
+                except Exception as e:
+                    ctx.oracle_fail("dataclass.leaf:construct-raises", f"a leaf dataclass payload with {[f[3] for f in lf]} cannot "
+                                    f"be constructed: {type(e).__name__}: {e}", {"section": "dataclass", "index": idx})
             with_id = rng.random() < 0.5
             counter = [0]
 
@@ -1263,94 +1443,142 @@ class Run:
             bf = new_fields(rng.choice([1, 2, 3]))
             base = self.dc_make(f"DcBase{idx}", bf, DataClassPayload[rng.randrange(1, 200)] if with_id else DataClassPayload, None)
             classes = [("base", bf, base)]
+            parents = ["x"]
             shape = rng.choice(["chain2", "chain3", "siblings", "chain2"])
             cf = bf + new_fields(rng.choice([1, 2]))
             child = self.dc_make(f"DcChild{idx}", cf[len(bf):], base, rng.randrange(1, 200) if with_id else None)
             classes.append(("derived", cf, child))
+            parents.append("0")
             if shape == "chain3":
                 gf = cf + new_fields(rng.choice([1, 2]))
                 classes.append(("derived2", gf, self.dc_make(f"DcGrand{idx}", gf[len(cf):], child,
                                                             rng.randrange(1, 200) if with_id else None)))
+                parents.append("1")
             elif shape == "siblings":
                 sf = bf + new_fields(rng.choice([1, 2]))
                 classes.append(("sibling", sf, self.dc_make(f"DcSib{idx}", sf[len(bf):], base,
                                                             rng.randrange(1, 200) if with_id else None)))
-            # the history: every class at least once, random order, some repeated
+                parents.append("0")
+            model_names = "/".join(".".join(f[0] for f in fields) for _, fields, _ in classes)
+            # the history: every class used at least once, random order, some repeated; about a quarter of the steps are
+            # receptions (decode only)
             order = list(range(len(classes)))
             rng.shuffle(order)
             order += [rng.randrange(len(classes)) for _ in range(rng.choice([1, 2, 3]))]
-            first = classes[order[0]][0]
+            steps = []
+            for ci in order:
+                if rng.random() < 0.3:
+                    steps.append(("recv", ci))
+                steps.append(("use", ci))
+            if rng.random() < 0.5:
+                steps.append(("recv", rng.randrange(len(classes))))
             ctx.count("dc_shape:" + shape)
-            ctx.count("dc_first_instantiated:" + first)
-            seen = []
-            for step, ci in enumerate(order):
+            ctx.count("dc_first_step:" + steps[0][0] + "-" + classes[steps[0][1]][0])
+            seen, instantiated, ops = [], set(), []
+            for step, (kind, ci) in enumerate(steps):
                 role, fields, cls = classes[ci]
-                hist = ">".join(seen + [role])
-                seen.append(role)
+                hist = ">".join(seen + [f"{kind}:{role}"])
+                seen.append(f"{kind}:{role}")
                 layout = {"kind": "nested", "fields": [f[2] for f in fields]}
-                pairs = [self.dc_value(rng, f) for f in fields]
-                args, vals = [a for a, _ in pairs], [v for _, v in pairs]
-                rep = {"section": "dataclass", "index": idx, "step": step, "history": hist, "role": role,
+                triples = [self.dc_value(rng, f, build=True) for f in fields]
+                args, vals, expect = [t[0] for t in triples], [t[1] for t in triples], [t[2] for t in triples]
+                rep = {"section": "dataclass", "index": idx, "step": step, "history": hist, "role": role, "kind": kind,
                        "fields": [(f[0], f[3]) for f in fields], "values": short_repr(vals, 300)}
                 ctx.count("dc_field_kinds:" + ",".join(sorted({f[3].split(":")[0] for f in fields})))
-                if role != "base" and "base" in seen[:-1] and role not in seen[:-1]:
-                    ctx.count("dc_history:derived-first-used-after-base")
-                elif role != "base" and role not in seen[:-1]:
-                    ctx.count("dc_history:derived-first-used-before-base")
+                for f in fields:
+                    if "tuple" in f[3] or "set" in f[3]:
+                        ctx.count("dc_container_field:" + f[3].split(":")[1].split("[")[0])
+                first_use = ci not in instantiated
+                base_done = 0 in instantiated
+                if kind == "recv":
+                    ctx.count("dc_recv:" + ("before-first-instance" if first_use else "after-instance")
+                              + (":ancestor-converted" if first_use and ci != 0 and base_done else ""))
+                elif role != "base" and first_use:
+                    ctx.count("dc_history:derived-first-used-" + ("after-base" if base_done else "before-base"))
                 site = f"dataclass.{role}"
-                try:
-                    obj = cls(*args)
-                    packed = self.ser.pack_serializable(obj)
-                except Exception as e:
-                    ctx.oracle_fail(f"{site}:pack-raises", f"history {hist}: constructing/packing a {role} dataclass payload raises "
-                                    f"{type(e).__name__}: {e}", rep)
-                    continue
                 ftok, vtok = fmt_token(layout), token(layout, vals)
-                self.model(f"packl {ftok} {vtok}", "ok " + hx(packed), rep)
                 try:
                     gold = doc_encode(layout, vals)[2:]
                 except (NotEncodable, OverflowError, struct.error, ValueError, TypeError) as e:
-                    gold = None
                     ctx.oracle_fail(f"{site}:doc-bytes", f"history {hist}: values do not fit the documented formats ({e})", rep)
-                if gold is not None and gold != packed:
-                    ctx.oracle_fail(f"{site}:doc-bytes", f"history {hist}: a {role} dataclass payload with fields "
-                                    f"{[f[3] for f in fields]} is encoded as {packed.hex()[:120]}, its annotated fields in the "
-                                    f"documented formats give {gold.hex()[:120]}", {**rep, "bytes": packed.hex()[:400]})
-                pre, post = self.embed(rng, gold if gold is not None else packed, False)
-                body = gold if gold is not None else packed
-                data, off = pre + body + post, len(pre)
+                    continue
+                if kind == "use":
+                    try:
+                        obj = cls(*args)
+                        packed = self.ser.pack_serializable(obj)
+                    except Exception as e:
+                        ctx.oracle_fail(f"{site}:pack-raises", f"history {hist}: constructing/packing a {role} dataclass payload "
+                                        f"raises {type(e).__name__}: {e}", rep)
+                        ops.append(f"i{ci}")
+                        instantiated.add(ci)
+                        continue
+                    ops.append(f"i{ci}")
+                    instantiated.add(ci)
+                    self.model(f"packl {ftok} {vtok}", "ok " + hx(packed), rep)
+                    if gold != packed:
+                        ctx.oracle_fail(f"{site}:doc-bytes", f"history {hist}: a {role} dataclass payload with fields "
+                                        f"{[f[3] for f in fields]} is encoded as {packed.hex()[:120]}, its annotated fields in the "
+                                        f"documented formats give {gold.hex()[:120]}", {**rep, "bytes": packed.hex()[:400]})
+                else:
+                    ops.append(f"r{ci}")
+                pre, post = self.embed(rng, gold, False)
+                data, off = pre + gold + post, len(pre)
                 rep = {**rep, "offset": off, "data": data.hex()[:600]}
+                sig = (lambda k: self.KNOWN_RECV_FIRST) if (kind == "recv" and first_use) else (lambda k: f"{site}:{k}")
+                outcome = "raise"
                 try:
                     got, new = self.ser.unpack_serializable(cls, data, off)
                 except Exception as e:
-                    ctx.oracle_fail(f"{site}:unpack-raises", f"history {hist}: decoding a {role} dataclass payload at {off} raises "
-                                    f"{type(e).__name__}: {e}", rep)
-                    self.model(f"unpackl {ftok} {hx(data)} {off}", "err", rep)
-                    continue
-                if type(got) is not cls:
-                    ctx.oracle_fail(f"{site}:type", f"history {hist}: decoded object is a {type(got).__name__}, expected "
-                                    f"{cls.__name__}", rep)
-                gvals = self.dc_extract(fields, got)
-                try:
-                    equal = same(self.norm(layout, vals), self.norm(layout, gvals))
-                except Exception:      # decoded object lacks fields / has fields of another shape
-                    equal = False
-                if not equal:
-                    ctx.oracle_fail(f"{site}:value", f"history {hist}: fields {short_repr(vals, 160)} decode as "
-                                    f"{short_repr(gvals, 160)}", rep)
-                if new != off + len(body):
-                    ctx.oracle_fail(f"{site}:offset", f"history {hist}: decoder stopped at {new}, message ends at {off + len(body)}", rep)
-                try:
-                    if self.ser.pack_serializable(got) != body:
-                        ctx.oracle_fail(f"{site}:reencode", f"history {hist}: re-encoding the decoded message differs", rep)
-                except Exception as e:
-                    ctx.oracle_fail(f"{site}:reencode", f"history {hist}: re-encoding raises {type(e).__name__}", rep)
-                try:
-                    gtok = token(layout, self.norm(layout, gvals))
-                except Exception as e:
-                    gtok = f"untokenizable:{type(e).__name__}"
-                self.model(f"unpackl {ftok} {hx(data)} {off}", f"ok {gtok} {new}", rep)
-                ctx.case(("dataclass", idx, step, vtok, off), True)
+                    got = None
+                    self.fail_limited(sig("unpack-raises"), f"history {hist}: decoding a {role} dataclass payload "
+                                    + ("that has not been instantiated before " if kind == "recv" and first_use else "")
+                                    + f"at offset {off} raises {type(e).__name__}: {e}", rep)
+                    if kind == "use":
+                        self.model(f"unpackl {ftok} {hx(data)} {off}", "err", rep)
+                if got is not None:
+                    outcome = next((f"cls{k}" for k, (_, _, c) in enumerate(classes) if type(got) is c), "other")
+                    if type(got) is not cls:
+                        self.fail_limited(sig("type"), f"history {hist}: decoded object is a {type(got).__name__}, expected "
+                                        f"{cls.__name__}" + (" (class not instantiated before)" if kind == "recv" and first_use else ""), rep)
+                    gvals = self.dc_extract(fields, got)
+                    try:
+                        equal = same(self.norm(layout, expect), self.norm(layout, gvals))
+                        loose = equal or same(self.norm(layout, self.listify(expect)), self.norm(layout, self.listify(gvals)))
+                    except Exception:      # decoded object lacks fields / has fields of another shape
+                        equal = loose = False
+                    if not equal and loose and type(got) is cls:
+                        bad = [(f[0], f[3].split(":")[1]) for f, e, g in zip(fields, expect, gvals)
+                               if ("tuple[" in f[3] or "set[" in f[3]) and type(e) is not type(g)]
+                        self.fail_limited("DataClassPayload:tuple-set-field-decodes-as-list", f"history {hist}: fields annotated "
+                                        f"{bad} decode as list objects (same items)", rep)
+                    elif not equal:
+                        self.fail_limited(sig("value"), f"history {hist}: fields {short_repr(expect, 160)} decode as "
+                                        f"{short_repr(gvals, 160)}", rep)
+                    if new != off + len(gold):
+                        self.fail_limited(sig("offset"), f"history {hist}: decoder stopped at {new}, message ends at {off + len(gold)}", rep)
+                    has_set = any("set[" in f[3] for f in fields)     # a set has no wire order of its own
+                    if type(got) is cls and not (has_set and any(isinstance(g, (set, frozenset)) for g in gvals)):
+                        try:
+                            if self.ser.pack_serializable(got) != gold:
+                                ctx.oracle_fail(sig("reencode"), f"history {hist}: re-encoding the decoded message differs", rep)
+                        except Exception as e:
+                            ctx.oracle_fail(sig("reencode"), f"history {hist}: re-encoding raises {type(e).__name__}", rep)
+                    if (kind == "use" or not first_use) and not (has_set and any(isinstance(g, (set, frozenset)) for g in gvals)):
+                        try:
+                            gtok = token(layout, self.norm(layout, self.listify(gvals)))
+                        except Exception as e:
+                            gtok = f"untokenizable:{type(e).__name__}"
+                        self.model(f"unpackl {ftok} {hx(data)} {off}", f"ok {gtok} {new}", rep)
+                if got is not None and type(got) is cls:
+                    for f, g in zip(fields, gvals):
+                        if f[3].startswith("atom:") and "[" in f[3]:
+                            ann = f[3].split(":")[1].split("[")[0]
+                            self.model(f"dccont {ann}", type(g).__name__, rep)
+                # class-level state after the step vs the Dc model
+                impl_names = "|".join(".".join(c.names) if c.names else "-" for _, _, c in classes)
+                res = "inst" if kind == "use" else outcome
+                self.model(f"dc {','.join(parents)} {model_names} {','.join(ops)}", f"{res};{impl_names}", rep)
+                ctx.case(("dataclass", idx, step, vtok, off), off > 0 or any(gold))
             # leave no attributes behind on the harness module
             import sys as _sys
             for _, _, c in classes:
@@ -1362,7 +1590,7 @@ class Run:
     def truncated(self, n: int):
         ctx, rng = self.ctx, self.rng_for("trunc")
         reg = self.info["registry"]
-        names = [nm for nm, d in reg.items() if d["kind"] not in ("payload", "payloadList") and "node" not in json.dumps(d)]
+        names = [nm for nm, d in reg.items() if d["kind"] not in ("payload", "payloadList")]
         for idx in range(n):
             name = rng.choice(names)
             d = reg[name]
@@ -1386,6 +1614,10 @@ class Run:
                 data = pre + packed + rbytes(rng, 3)
             off = len(pre)
             rep = {"section": "trunc", "index": idx, "packer": name, "data": data.hex()[:600], "offset": off}
+            if "node" in json.dumps(d):
+                # the model cannot know whether damaged key bytes still parse as a public key (Node(...) may raise): an
+                # implementation error where the model decodes is tolerated, everything else is compared
+                rep["tolerate_impl_err"] = True
             try:
                 got, new = self.unpack_packer(name, d, data, off)
                 try:
@@ -1398,7 +1630,7 @@ class Run:
             if impl.startswith("untokenizable"):
                 continue
             self.model(f"unpack @{name} {hx(data)} {off}", impl, rep)
-            ctx.case(("trunc", name, data.hex(), off), True)
+            ctx.case(("trunc", name, data.hex(), off), off > 0 or any(data))
 
     # --- section: CellPayload ---------------------------------------------------------------------------------------------
     def cells(self, n: int):
@@ -1430,7 +1662,15 @@ class Run:
                 impl = "err"
                 ctx.oracle_fail("CellPayload.from_bin:raises", f"from_bin(to_bin(cell)) raises {type(e).__name__}", rep)
             self.model(f"cell frombin {hx(b)}", impl, rep)
-            ctx.case((S_CELL, cid, pt, re_, msg.hex()), True)
+            try:
+                u = c.unwrap(prefix)
+                wantu = prefix + msg[0:1] + cid.to_bytes(4, "big") + msg[1:]
+                if u != wantu:
+                    ctx.oracle_fail("CellPayload.unwrap:doc-bytes", f"unwrap gives {u.hex()[:100]}, expected {wantu.hex()[:100]}", rep)
+                self.model(f"cell unwrap {hx(prefix)} {cid} {hx(msg)}", "ok " + hx(u), rep)
+            except Exception as e:
+                ctx.oracle_fail("CellPayload.unwrap:raises", f"unwrap raises {type(e).__name__}: {e}", rep)
+            ctx.case((S_CELL, cid, pt, re_, msg.hex()), bool(cid or pt or re_ or any(msg)))
         ctx.count("cells", n)
 
     # --- section: unpack_serializable_list ----------------------------------------------------------------------------------
@@ -1444,6 +1684,8 @@ class Run:
             # `raw`-terminated classes may only come last
             chosen = [p for p in chosen[:-1] if p["refs"][-1] != ("name", "raw")] + [chosen[-1]]
             objs = [self.gen_instance(rng, p) for p in chosen]
+            if any(o is None for o, _ in objs):
+                continue
             consume = rng.random() < 0.6
             extra = rbytes(rng, rng.choice([0, 0, 1, 4]))
             if chosen[-1]["refs"][-1] == ("name", "raw"):
@@ -1476,7 +1718,7 @@ class Run:
                     ctx.oracle_fail("Serializer.unpack_serializable_list:raises", f"{type(e).__name__}: {e}", rep)
             ctx.count(f"ulist:consume={int(consume)}:extra={int(bool(extra))}:{impl[:3]}")
             self.model("dlist %d %s %d %s" % (int(consume), hx(data), off, " ".join(p["name"] for p in chosen)), impl, rep)
-            ctx.case((S_ULIST, idx, data.hex()[:80]), True)
+            ctx.case((S_ULIST, idx, data.hex()[:80]), off > 0 or any(body))
 
     # --- section: frozen layouts / msg ids vs the live classes (implementation-level statement of the table theorems) -----
     def spec_oracle(self):
@@ -1595,7 +1837,7 @@ OLD = {
 def gen_old(rng, cls, ctx):
     spec = OLD.get(cls.__name__)
     if spec is None:
-        raise TranslatorError(f"old-style payload {cls.__name__} has no generator/model in the C02 harness")
+        return None, None        # a hand-written payload the harness has no constructor recipe for: counted, not judged
     args = spec["gen"](rng)
     return cls(*args), [a for a, _ in spec["attrs"]]
 
@@ -1669,6 +1911,7 @@ def sections(r: Run, ctx: Ctx, scale):
     r.offset_sweep(scale["sweep"])
     r.packers(scale["packers"])
     r.illegal()
+    r.loose()
     r.classes(scale["classes"])
     r.adhoc(scale["adhoc"])
     r.dataclass_histories(scale["dataclass"])
@@ -1686,8 +1929,15 @@ def run(ctx: Ctx):
     scale = SCALE(ctx)
     r = Run(ctx, info, spec, use_model)
     sections(r, ctx, scale)
+    kinds = {}
+    for p in info["payloads"]:
+        kinds[p["kind"]] = kinds.get(p["kind"], 0) + 1
     ctx.extra["translator"] = {"packers": len(info["registry"]), "payload_classes": len(info["payloads"]),
-                               "overlay_serializers": info.get("overlays", [])}
+                               "payload_classes_by_kind": kinds, "overlay_serializers": info.get("overlays", []),
+                               "modules_not_imported": info.get("import_skipped", [])}
+    ctx.extra["obligation_names"] = ("every theorem listed under `theorems`; generated file Ipv8/C02/Gen.lean regenerates and "
+                                     "type-checks; generated file Ipv8/C02/GenSpec.lean regenerates and type-checks; "
+                                     "model/implementation correspondence (driver drv_c02) shows no disagreement")
 
 
 def search(ctx: Ctx, reason: str):
